@@ -88,17 +88,20 @@ static const MPT_STRUCT(value) *iterValueValue(MPT_INTERFACE(iterator) *it)
 static int iterValueAdvance(MPT_INTERFACE(iterator) *it)
 {
 	MPT_STRUCT(iteratorValues) *d = MPT_baseaddr(iteratorValues, it, _it);
+	double tmp;
 	int len;
 	if (!d->next) {
 		return MPT_ERROR(MissingData);
 	}
-	if (!*d->next || !(len = mpt_cdouble(&d->curr, d->next, 0))) {
+	if (!*d->next || !(len = mpt_cdouble(&tmp, d->next, 0))) {
 		d->next = 0;
 		return 0;
 	}
-	if (len < 0 || isnan(d->curr)) {
+	/* keep current element when next one is refused */
+	if (len < 0 || isnan(tmp)) {
 		return MPT_ERROR(BadValue);
 	}
+	d->curr = tmp;
 	d->next += len;
 	return 'd';
 }
